@@ -142,6 +142,19 @@ def execute(sc):
                 'fds': len(shim.fds),
                 'tl': [_tl_owner(objs[o]) for o in sorted(objs)]}
 
+    if sc['mode'] == 'conc' and sc.get('proj', True):
+        _orig_log = ctl.log
+
+        def log_with_proj(e, **kw):
+            d = _orig_log(e, **kw)
+            if e in ('AcqCall', 'AcqRet', 'Exit', 'RelRet'):
+                try:
+                    d['st'] = {'o%d' % o: [bool(objs[o].is_locked), int(objs[o]._lock_counter), _tl_owner(objs[o]) or 'none']
+                               for o in sorted(objs)}
+                except Exception:
+                    pass
+            return d
+        ctl.log = log_with_proj
     try:
         if sc['mode'] == 'seq':
             _run_seq(sc, ctl, shim, objs, observe)
